@@ -973,6 +973,7 @@ func (P) Generate(g *core.Gen) {
 	x.sequences()
 	x.helperAPIs()
 	x.primitives()
+	x.byteSweeps()
 	// random garbage into every decoder
 	for i := 0; i < g.N(300, 6000); i++ {
 		kind := kinds[r.Intn(len(kinds))]
@@ -1330,5 +1331,124 @@ func (x *gen) primitives() {
 			}
 			x.emit("fromv2", true, fmt.Sprintf("C08 fromv2 %s %d", hx(a), uint16(x.u32())))
 		}
+	}
+}
+
+// byteSweeps: every one-byte discriminator of every layout takes all 256 values; the decoder must either
+// reject or round-trip byte for byte (verdict, re-encoding, sizes and ids are compared with the model).
+func (x *gen) byteSweeps() {
+	r := x.r
+	sweep := func(kind string, pver uint32, enc string, p []byte, off int) {
+		if off < 0 || off >= len(p) {
+			return
+		}
+		for v := 0; v < 256; v++ {
+			q := append([]byte{}, p...)
+			q[off] = byte(v)
+			x.dec("sweep:"+kind, kind, pver, enc, q, true)
+		}
+	}
+	enc := func(m wire.Message, pver uint32, e wire.MessageEncoding) []byte {
+		var w bytes.Buffer
+		if err := m.BtcEncode(&w, pver, e); err != nil {
+			panic(err)
+		}
+		return w.Bytes()
+	}
+	// BIP144: version | 00 | xx | <legacy body>, version | 00 | xx | <witness body>, and the same through ReadMessage
+	legacy := &wire.MsgTx{Version: 2, LockTime: 7}
+	legacy.TxIn = []*wire.TxIn{{PreviousOutPoint: wire.OutPoint{Hash: x.hash(), Index: 1}, SignatureScript: r.Bytes(3), Sequence: 5}}
+	legacy.TxOut = []*wire.TxOut{{Value: 9, PkScript: r.Bytes(2)}}
+	lb := enc(legacy, 70016, wire.BaseEncoding)
+	wit := legacy.Copy()
+	wit.TxIn[0].Witness = [][]byte{{0x30, 0x01}, {0x02}}
+	wb := enc(wit, 70016, wire.WitnessEncoding)
+	zero := &wire.MsgTx{Version: 1, TxOut: []*wire.TxOut{{Value: 1, PkScript: []byte{0x51}}}}
+	zb := enc(zero, 70016, wire.BaseEncoding)
+	for _, body := range [][]byte{lb, zb} {
+		ins := append(append(append([]byte{}, body[:4]...), 0, 0), body[4:]...)
+		for _, e := range []string{"w", "b"} {
+			sweep("tx", 70016, e, ins, 5)
+			sweep("tx", 70016, e, ins, 4)
+		}
+		for _, fl := range []byte{0, 1, 2} {
+			q := append([]byte{}, ins...)
+			q[5] = fl
+			net := uint32(wire.MainNet)
+			for _, e := range []string{"w", "b"} {
+				x.msgCase("sweep:tx", 70016, net, e, frameMsg(net, []byte("tx"), uint32(len(q)), chainhash.DoubleHashB(q)[:4], q))
+			}
+			x.emit("sweep:tx", true, "C08 txbytes "+hx(q))
+			x.emit("sweep:tx", true, "C08 txapi "+hx(q))
+			x.emit("sweep:tx", true, "C08 utx bytes "+hx(q)+" H,W,X,M")
+			blk := append(append(make([]byte, 80), 1), q...)
+			x.emit("sweep:tx", true, "C08 blockbytes "+hx(blk))
+			x.dec("sweep:block", "block", 70016, "w", blk, true)
+		}
+	}
+	for _, e := range []string{"w", "b"} {
+		sweep("tx", 70016, e, wb, 5)
+		sweep("tx", 70016, e, wb, 4)
+		sweep("tx", 70016, e, lb, 4)                // input count
+		sweep("tx", 70016, e, wb, len(wb)-4-1-1-2-1) // witness item count region
+	}
+	// a block holding the transaction: the same flag byte one level down
+	blk := append(append(make([]byte, 80), 1), wb...)
+	sweep("block", 70016, "w", blk, 80+5)
+	sweep("block", 70016, "w", blk, 80)
+	// inventory type byte, count byte
+	inv := enc(&wire.MsgInv{InvList: x.invs(2)}, 70016, wire.BaseEncoding)
+	sweep("inv", 70016, "b", inv, 0)
+	sweep("inv", 70016, "b", inv, 1)
+	sweep("inv", 70016, "b", inv, 4)
+	// reject: command length, code, reason length
+	rej := enc(&wire.MsgReject{Cmd: "tx", Code: wire.RejectInvalid, Reason: "r", Hash: x.hash()}, 70016, wire.BaseEncoding)
+	for o := 0; o < 6; o++ {
+		sweep("reject", 70016, "b", rej, o)
+	}
+	// addrv2: count, services prefix, network id, address length
+	a2 := append([]byte{1}, 0x29, 0xab, 0x5f, 0x49, 0x01, 0x02, 0x10)
+	a2 = append(append(a2, r.Bytes(16)...), 0x20, 0x8d)
+	a2[8] = 0x20 // not OnionCat / mapped
+	for _, o := range []int{0, 5, 6, 7} {
+		sweep("addrv2", 70016, "b", a2, o)
+	}
+	// version: relay byte (F-C08-a for values other than 00/01), user-agent length
+	ver := enc(&wire.MsgVersion{UserAgent: "/x/", AddrYou: *x.netaddr(), AddrMe: *x.netaddr()}, 70016, wire.BaseEncoding)
+	sweep("version", 70016, "b", ver, len(ver)-1)
+	sweep("version", 70016, "b", ver, 80)
+	// filterload flags / hash funcs, filteradd and cfilter length and type bytes
+	fl := enc(&wire.MsgFilterLoad{Filter: []byte{1, 2, 3}, HashFuncs: 10, Tweak: 1, Flags: 1}, 70016, wire.BaseEncoding)
+	for _, o := range []int{0, 4, 7, len(fl) - 1} {
+		sweep("filterload", 70016, "b", fl, o)
+	}
+	sweep("filteradd", 70016, "b", enc(&wire.MsgFilterAdd{Data: []byte{9, 8}}, 70016, wire.BaseEncoding), 0)
+	cf := enc(&wire.MsgCFilter{BlockHash: x.hash(), Data: []byte{1, 2}}, 70016, wire.BaseEncoding)
+	sweep("cfilter", 70016, "b", cf, 0)
+	sweep("cfilter", 70016, "b", cf, 33)
+	// count prefixes of the hash-list messages and headers' trailing tx count
+	sweep("getblocks", 70016, "b", enc(&wire.MsgGetBlocks{BlockLocatorHashes: x.hashes(1)}, 70016, wire.BaseEncoding), 4)
+	h := x.header()
+	hm := &wire.MsgHeaders{Headers: []*wire.BlockHeader{&h}}
+	hb := enc(hm, 70016, wire.BaseEncoding)
+	sweep("headers", 70016, "b", hb, 0)
+	sweep("headers", 70016, "b", hb, 81)
+	sweep("cfheaders", 70016, "b", enc(&wire.MsgCFHeaders{FilterHashes: x.hashes(1)}, 70016, wire.BaseEncoding), 65)
+	sweep("cfcheckpt", 70016, "b", enc(&wire.MsgCFCheckpt{FilterHeaders: x.hashes(1)}, 70016, wire.BaseEncoding), 33)
+	mb := enc(&wire.MsgMerkleBlock{Header: h, Hashes: x.hashes(1), Flags: []byte{1}}, 70016, wire.BaseEncoding)
+	sweep("merkleblock", 70016, "b", mb, 84)
+	sweep("merkleblock", 70016, "b", mb, len(mb)-2)
+	am := &wire.MsgAddr{}
+	am.AddrList = append(am.AddrList, x.netaddr())
+	sweep("addr", 70016, "b", enc(am, 70016, wire.BaseEncoding), 0)
+	// compact-size prefixes with non-minimal payloads
+	for _, pre := range [][]byte{{0xfd, 0, 0}, {0xfd, 0xfc, 0}, {0xfd, 0xfd, 0}, {0xfe, 0, 0, 0, 0}, {0xfe, 0xff, 0xff, 0, 0}, {0xfe, 0, 0, 1, 0},
+		{0xff, 0, 0, 0, 0, 0, 0, 0, 0}, {0xff, 0xff, 0xff, 0xff, 0xff, 0, 0, 0, 0}, {0xff, 0, 0, 0, 0, 1, 0, 0, 0}} {
+		x.emit("sweep:varint", true, "C08 varint "+hx(append(append([]byte{}, pre...), 1, 2)))
+		x.dec("sweep:varint", "inv", 70016, "b", pre, true)
+		x.dec("sweep:varint", "tx", 70016, "w", append(append(make([]byte, 4), pre...), lb[5:]...), true)
+	}
+	for v := 0; v < 256; v++ {
+		x.emit("sweep:varint", true, "C08 varint "+hx([]byte{byte(v), 0xfc, 0, 0, 0, 0, 0, 0, 0}))
 	}
 }
